@@ -100,6 +100,11 @@ func suiteSizing(c *Ctx) {
 		sizingCMS(c, cfg[0], cfg[1], false)
 		sizingCMS(c, cfg[0], cfg[1], true)
 	}
+	// sparse sketches (few heavy keys: most cells are zero) probed with never-inserted keys
+	for _, cfg := range [][2]float64{{0.01, 0.001}, {0.02, 0.01}} {
+		sizingCMSSparse(c, cfg[0], cfg[1], false)
+		sizingCMSSparse(c, cfg[0], cfg[1], true)
+	}
 	// bimodal streams (a fifth of the columns' worth of heavy keys, many light ones), both backends
 	for _, cfg := range [][2]float64{{0.01, 0.01}, {0.05, 0.05}, {0.02, 0.1}} {
 		sizingCMSBimodal(c, cfg[0], cfg[1], false)
@@ -348,4 +353,47 @@ func sizingBloomReload(c *Ctx, redis bool, probes int) {
 			map[string]interface{}{"n": n, "p": p, "redis": redis, "probes": probes, "hits": hits, "seed": c.seed})
 	}
 	c.nontrivial(fmt.Sprintf("bloom-reload %v", redis))
+}
+
+// sparse sketch: 30 heavy keys, so that most cells are zero, and 8000 (Redis: 600) never-inserted
+// keys; an absent key is over-estimated by more than eps*N only if it meets a heavy key in EVERY row
+func sizingCMSSparse(c *Ctx, eps, delta float64, redis bool) {
+	var s cmsHandle
+	if redis {
+		h, err := gostatix.NewCountMinSketchRedisFromEstimates(eps, delta)
+		if err != nil || h == nil {
+			return
+		}
+		s = cmsRedis{h}
+	} else {
+		h, err := gostatix.NewCountMinSketchFromEstimates(eps, delta)
+		if err != nil || h == nil {
+			return
+		}
+		s = cmsMem{h}
+	}
+	c.rep.Cases++
+	var total uint64
+	for i := 0; i < 30; i++ {
+		w := uint64(50 + c.rng.Intn(50))
+		s.Update([]byte(fmt.Sprintf("sparse-heavy-%d-%d", c.seed, i)), w)
+		total += w
+	}
+	probes := 8000
+	if redis {
+		probes = 600
+	}
+	bad := 0
+	for i := 0; i < probes; i++ {
+		est, _ := s.Count([]byte(fmt.Sprintf("sparse-absent-%d-%d", c.seed, i)))
+		if float64(est) > eps*float64(total) {
+			bad++
+		}
+	}
+	c.op(fmt.Sprintf("stat.cms.sparse.redis=%v", redis))
+	if overBudget(bad, probes, delta) {
+		c.fail([]string{"C15", "C03"}, "cms-overestimate-above-budget", fmt.Sprintf("CountMinSketch(eps=%g,delta=%g,redis=%v), 30 heavy keys: %d of %d never-inserted keys estimated above eps*N", eps, delta, redis, bad, probes),
+			map[string]interface{}{"eps": eps, "delta": delta, "redis": redis, "sparse": true, "seed": c.seed})
+	}
+	c.nontrivial(fmt.Sprintf("cms-sparse %g %g %v", eps, delta, redis))
 }
